@@ -378,7 +378,9 @@ Definition ostep (st : ost) (s : eop * list eobs) : ost * list nat :=
     | EFailAppend n k => (set_failn st ((n, k) :: filter (fun p => negb (Nat.eqb (fst p) n)) (t_fail st)), [])
     | ECheck n =>
       let here := filter (fun x => oalive x && negb (otomb x)) (t_sess st) in
-      let views_known := told_all st n && negb (t_unsure st) in
+      (* between a survivor's notice of a host failure and its delayed removal of that host's session
+         records, whether those records are still listed is nobody's property: no demand on the lists *)
+      let views_known := told_all st n && negb (t_unsure st) && forallb (fun p => Nat.ltb (fst p) 1000) (t_left st) in
       (st, flat_map (fun ob => match ob with
          | Listed _ ss sb reg pend =>
            ((if views_known then
